@@ -152,10 +152,11 @@ def run_plan(seed, op, who, plan, pre=None, post_check=True):
     w = mk_world(seed, pre)
     use_world(w)
     psutil._pslinux.HAS_PROC_SMAPS_ROLLUP = variant(seed) != 2
-    obj = None
+    obj = obj2 = None
     if who is not None:
         try:
             obj = psutil.Process(n[who])
+            obj2 = psutil.Process(n[who]) if post_check and plan else None
         except psutil.Error as e:
             return Run(tuple(plan), [], ("ctor", type(e).__name__), None)
     hook = PlanHook(plan, apply_dev)
@@ -176,6 +177,20 @@ def run_plan(seed, op, who, plan, pre=None, post_check=True):
             o2 = outcome(getattr(obj, nm))
             if not (o2[0] == "exc" and o2[1] == "NoSuchProcess" and o2[2].get("pid") == obj.pid):
                 bad.append((nm, freeze(o2)))
+        # ... also when its pid has meanwhile been handed to a newcomer: on the object that made the faulted call and on a
+        # second object of the same process which first noticed the death through is_running()
+        if not bad and obj2 is not None:
+            o2 = outcome(obj2.is_running)
+            if o2 != ("ok", False):
+                bad.append(("is_running(second object)", freeze(o2)))
+            w.spawn(obj.pid, ppid=1, comm=b"newcomer", start=9000)
+            w.spawn(n["T1"], ppid=obj.pid, comm=b"newkid", start=9500)
+            for label, o in (("", obj), ("(noticed by is_running)", obj2)):
+                for nm, fn in (("ppid", o.ppid), ("parent", o.parent), ("parents", o.parents), ("children", o.children),
+                               ("children_r", lambda o=o: o.children(recursive=True))):
+                    o2 = outcome(fn)
+                    if not (o2[0] == "exc" and o2[1] == "NoSuchProcess" and o2[2].get("pid") == obj.pid):
+                        bad.append((nm + "-after-pid-recycled" + label, freeze(o2)))
         extra["later"] = bad
     if out[0] == "ok":
         out = ("ok", freeze(out[1]))
@@ -267,8 +282,7 @@ class Oracle:
                         "%s leaked %s %r under faults %r" % (op, cls, info, faults))
             if tag == "iter":
                 return ("iter-raised:%s" % cls, "process_iter raised %s %r under %r" % (cls, info, faults))
-            okpids = {objpid} | fpids
-            if info.get("pid") not in okpids:
+            if info.get("pid") != objpid:
                 return ("wrong-pid:%s:%s" % (op, cls), "%s raised %s pid=%r, object pid=%r faults=%r"
                         % (op, cls, info.get("pid"), objpid, faults))
             need = {"NoSuchProcess": {"vanish", "halfgone"}, "ZombieProcess": {"zombie"},
